@@ -19,6 +19,7 @@ import TonVerif.Drv.VmStack
 import TonVerif.Drv.Cost
 import TonVerif.Drv.Tl
 import TonVerif.Drv.Hashmap
+import TonVerif.Drv.Boc
 
 open TonVerif TonVerif.Drv
 
@@ -38,6 +39,7 @@ def handlers : List (String → List String → Option String) := [
   Cost.handle?,
   Tl.handle?,
   Hashmap.handle?
+  Boc.handle?
 ]
 
 def handle (op : String) (args : List String) : String :=
